@@ -209,8 +209,8 @@ func (c *Ctx) c05Scene(o c05Opts) []c05Mesh {
 	for k := range ms {
 		m := &ms[k]
 		m.name = c05Names[c.Rng.Intn(len(c05Names))]
-		if n == 1 && c.Rng.Intn(2) == 0 {
-			m.name = ""
+		if (n == 1 && c.Rng.Intn(2) == 0) || c.Rng.Intn(10) == 0 {
+			m.name = "" // several meshes with an unnamed one: written as a bare "g "
 		}
 		nv := 1 + c.Rng.Intn(8)
 		nt := 1 + c.Rng.Intn(8)
@@ -334,19 +334,6 @@ func c05Read(text []byte) (string, []obj.ObjMesh) {
 // a read-back group whose normals / uvs are not aligned with its vertices: the text mixed corner shapes
 // within one group (finding class, own oracle op)
 func c05ResaveOp(gs []obj.ObjMesh) string {
-	for _, g := range gs {
-		m := g.Mesh
-		if !m.HasFloat3Attribute(modeling.PositionAttribute) {
-			continue
-		}
-		n := m.Float3Attribute(modeling.PositionAttribute).Len()
-		if m.HasFloat3Attribute(modeling.NormalAttribute) && m.Float3Attribute(modeling.NormalAttribute).Len() != n {
-			return "c05.holds.resave_mixed_shapes"
-		}
-		if m.HasFloat2Attribute(modeling.TexCoordAttribute) && m.Float2Attribute(modeling.TexCoordAttribute).Len() != n {
-			return "c05.holds.resave_mixed_shapes"
-		}
-	}
 	return "c05.holds.resave"
 }
 
@@ -615,7 +602,7 @@ func (c *Ctx) c05Text() (string, bool) {
 }
 
 func (c *Ctx) c05TextCase() {
-	t, _ := c.c05Text()
+	t, mixed := c.c05Text()
 	text := []byte(t)
 	rans, gs := c05Read(text)
 	c.Emit("c05.read", hx(text), rans)
@@ -625,6 +612,9 @@ func (c *Ctx) c05TextCase() {
 	}
 	sans, text2 := c05Resave(gs)
 	op := c05ResaveOp(gs)
+	if mixed && op == "c05.holds.resave" {
+		op = "c05.holds.resave_mixed_shapes"
+	}
 	c.Note("text." + strings.TrimPrefix(op, "c05.holds."))
 	if text2 == nil {
 		c.Emit(op, hx(text)+" "+hs(sans), "true")
@@ -663,6 +653,16 @@ func runC05(c *Ctx) {
 		_, gs := c05Read(text)
 		sans, _ := c05Resave(gs)
 		c.Emit("c05.holds.resave_mixed_shapes", hx(text)+" "+sans, "true")
+	}
+	{
+		// corpus: faces before the first g, then a named group — the unnamed group is saved as a bare "g "
+		text := []byte("v 0 0 0\nv 1 0 0\nv 0 1 0\nf 1 2 3\ng a\nf 3 2 1\ng\nf 2 3 1\n")
+		rans, gs := c05Read(text)
+		c.Emit("c05.read", hx(text), rans)
+		sans, text2 := c05Resave(gs)
+		c.Emit("c05.holds.resave", hx(text)+" "+sans, "true")
+		rans2, _ := c05Read(text2)
+		c.Emit("c05.read", hx(text2), rans2)
 	}
 	for _, t := range c05Malformed {
 		rans, _ := c05Read([]byte("v 0 0 0\nv 1 0 0\nv 0 1 0\nvt 0 0\nvn 0 0 1\nf 1 2 3\n" + t + "\nf 3 2 1\n"))
